@@ -317,10 +317,11 @@ class ValueNumbers(object):
   ``at`` (when exactly one does, or all reaching definitions have the same term).  Two expressions with equal terms
   denote the same value, which replaces comparisons of variable *names* and survives renamed / duplicated temporaries."""
 
-  def __init__(self, cx, fn):
+  def __init__(self, cx, fn, multi=False):
     from .symeval import SymEval
     self.cx = cx
     self.fn = fn
+    self.multi = multi       # several reaching definitions with different terms -> ('either', ...) instead of the bare name
     self.g = cx.cfg(fn)
     self.se = SymEval(cx)
     self._memo = {}
@@ -370,6 +371,9 @@ class ValueNumbers(object):
       ts = {self._def_term(name, d) for d in rds}
       if len(ts) == 1:
         out = ts.pop()
+      elif self.multi:
+        from .symeval import either
+        out = either(*sorted(ts, key=repr))
     self._memo[k2] = out
     return out
 
